@@ -8,4 +8,4 @@ Extraction "C14_model.ml"
   wb_from_stream_type wb_from_uni wb_from_bidi wb_from_frame wb_from_pair
   wb_remaining wb_chunk wb_advance wb_view
   setup step run stream_wire
-  rfc_varint rfc_frame rfc_judge_uni rfc_judge_request verdict_ok rfc_reserved rfc_read_varint.
+  rfc_varint rfc_frame rfc_judge_uni rfc_judge_request verdict_ok rfc_reserved rfc_read_varint rfc_read_frame rfc_settings_pairs rfc_h2_setting.
